@@ -450,7 +450,7 @@ class Judge:
         sig = ("kv", lvl, lineage, info["inflight"], which, self.bclass(tl, k, b) if lvl == 1 else "l2",
                compacted, min(len(d0["keys"]), 6), bool(mism), bool(mism1))
         self.sigs.add(h64(json.dumps(sig)))
-        if self.samples < 2 and infl is not None:
+        if self.samples < 1 and infl is not None and len(d0["keys"]) >= 3 and which in ("old", "new", "mixed"):
             self.samples += 1
             self.out.append(dict(t="case", n=0, sample=dict(store="kv", seed=self.log["seed"], hist=self.log["hist"], cut=info,
                                                             recovered_keys=len(d0["keys"]), recovered=which,
@@ -537,7 +537,7 @@ class Judge:
                 self.viol(pre + lineage + ":cont-file-unparseable", f"file written by the clean close is not JSON: {e}", info)
         sig = ("json", lvl, lineage, info["inflight"], which, "op-boundary" if b == 0 else "byte", min(len(d0), 5), bad0, bad1)
         self.sigs.add(h64(json.dumps(sig)))
-        if self.samples < 2 and infl is not None:
+        if self.samples < 1 and infl is not None and len(d0) >= 2:
             self.samples += 1
             self.out.append(dict(t="case", n=0, sample=dict(store="json", seed=self.log["seed"], hist=self.log["hist"], cut=info,
                                                             recovered=which or "inadmissible", recovered_keys=len(d0))))
